@@ -4,6 +4,7 @@ Only one thread runs at a time.  A thread gives up control at *yield points* - c
 correspond to the spec's actions, observed with sys.settrace - when the imposed schedule says so.  The spec's
 abstract steps map to real yield points: lg_* and tc_* to the memoisation functions, each private step tok_i to
 a block of consecutive parser / normalizer yield points."""
+import gc
 import hashlib
 import re
 import sys
@@ -46,6 +47,11 @@ RETURN_POINTS = {   # the moment just before the shared write that follows the f
 }
 
 
+def interpreter_settings():
+    return {'recursionlimit': sys.getrecursionlimit(), 'switchinterval': sys.getswitchinterval(), 'gc': gc.isenabled(),
+            'dont_write_bytecode': sys.dont_write_bytecode}
+
+
 def reset_memo():
     pgrammar._loaded_grammars.clear()
     ptok._token_collection_cache.clear()
@@ -74,6 +80,10 @@ class Run:
         self.lock = threading.Lock()
         self.all_done = threading.Event()
         self.yields = {t: 0 for t in programs}
+        # interpreter-wide settings every thread sees: sampled at every yield point (a call that changes one of them
+        # temporarily leaves no trace once it has returned, but the other threads run under it meanwhile)
+        self.base_env = interpreter_settings()
+        self.env_changes = set()
 
     # -- scheduling -------------------------------------------------------------------------------
     def current(self):
@@ -107,6 +117,9 @@ class Run:
 
     def point(self, tid, label):
         self.yields[tid] += 1
+        env = interpreter_settings()
+        if env != self.base_env:
+            self.env_changes.update(k for k in env if env[k] != self.base_env[k])
         if label == 'tok':
             self.priv[tid] += 1
             if (self.priv[tid] + self.offset) % self.block:
